@@ -81,7 +81,7 @@ def oracle(suite, case, impl):
     ra = -1
     for op, res, b0, a0, b1, a1, now, prices in O.walk(tr):
         i += 1
-        if op[0] == 20:
+        if op[0] == 30:
             ra = op[1]
         if res != "OK":
             continue
